@@ -259,6 +259,16 @@ def run(repo, gen_dir):
         camel = re.sub(r"_(\w)", lambda m: m.group(1).upper(), n)
         L.append(f"def {camel} : List (List UInt8) := [" + ", ".join(lean_bytes(x.encode()) for x in (v or [])) + "]"
                  + "  -- " + ", ".join(v or []))
+    # language table of http_languages.rs (LANGUAGES: code -> name)
+    hl = rd(os.path.join(repo, "huginn-net-http/src/http_languages.rs")) or ""
+    langs = re.findall(r'map\.insert\("([^"]+)"\.to_string\(\),\s*"([^"]+)"\.to_string\(\)\);', hl)
+    item("http_languages.rs LANGUAGES", len(langs) > 100, props=["C16"])
+    L.append("/-- `LANGUAGES` (a HashMap in the code: a later insert of the same key would win; keys are checked distinct below) -/")
+    L.append("def languages : List (List UInt8 × List UInt8) := [")
+    for k, (a, b) in enumerate(langs):
+        L.append(f"  ({lean_bytes(a.encode())}, {lean_bytes(b.encode())}){',' if k + 1 < len(langs) else ''}  -- {a} {b}")
+    L.append("]")
+    item("http_languages.rs LANGUAGES keys distinct", len(set(a for a, _ in langs)) == len(langs), props=["C16"])
     L += ["", "end Huginn.Gen.H2Lists", ""]
     write_if_changed(os.path.join(gen_dir, "H2Lists.lean"), "\n".join(L))
     return items
